@@ -37,8 +37,10 @@ theorem C06_eq_iff_same_path (p q : Expr) (hp : IsPath p) (hq : IsPath q) : refE
 theorem C06_expr_eq_iff (e₁ e₂ : Expr) (h₁ : WFarg e₁) (h₂ : WFarg e₂) : refEq e₁ e₂ ↔ e₁ = e₂ :=
   ⟨fun h => print_injective e₁ e₂ h₁ h₂ h, fun h => by rw [h]; rfl⟩
 
-/-- the hash is computed from the structure, so equal references hash equally: for any function of
-    the structure (the model of `hash((type name, owner, key))`) -/
+/-- equal references hash equally — for ANY function of the structure, by congruence from `C06_eq_iff_same_path`: the
+    content is the modelling assumption that the library's `__hash__` is such a function (`hash((type name, owner,
+    key))`), which the oracle checks on the implementation (`hash`, `in dict`, `in set` next to `==`).  The converse
+    direction (different paths do not collide in dict look-ups although their hashes may) is the oracle's alone. -/
 theorem C06_hash_of_eq {H : Type} (hash : Expr → H) (p q : Expr) (hp : IsPath p) (hq : IsPath q)
     (h : refEq p q) : hash p = hash q := by
   rw [(C06_eq_iff_same_path p q hp hq).mp h]
